@@ -64,7 +64,12 @@ class OneLineValue(pfbase.CfgCase):
         super().__init__(params)
         self.src = params['value']
         self.value = gen_values.make_value(self.src)
-        self.ref = pfbase.native_pformat(self.value, 10 ** 6, 10 ** 6)
+        if params.get('ref') == 'repr':
+            # containers of ints: the one-line form is repr(value), whatever the
+            # package under test does at "unbounded" width
+            self.ref = repr(self.value)
+        else:
+            self.ref = pfbase.native_pformat(self.value, 10 ** 6, 10 ** 6)
         self.L = len(self.ref)
         self.delta = params.get('delta', 0)
 
@@ -106,7 +111,7 @@ def lemma_task(task):
 
 def cases(tier, seed):
     out = lemmas.lemma_tasks(tier, 'c06')
-    for c in c05.shape_cases(tier, seed, 'C06'):
+    for c in c05.shape_cases(tier, seed, 'C06') + c05.frac_cases(tier, seed, 'C06'):
         c = dict(c)
         c['params'] = dict(c['params'], rule='C06')
         out.append(c)
@@ -121,6 +126,18 @@ def cases(tier, seed):
     for name, src in corpus[::step]:
         out.append({'name': 'oneline-value:%s' % name, 'family': 'oneline-value',
                     'params': {'value': src}, 'budget': 60.0})
+    # long one-line values: the lookahead of the outermost group walks the
+    # whole value (hundreds to thousands of documents)
+    for rows in ((3,) if tier == 'quick' else (2, 5, 8)):
+        out.append({'name': 'oneline-big:%drows' % rows, 'family': 'oneline-value',
+                    'params': {'value': '[[0, 1, 2, 3, 4, 5, 6, 7, 8, 9] * 5] * %d' % rows,
+                               'ref': 'repr'},
+                    'budget': 60.0 * rows, 'path_timeout': 60.0 * rows})
+    if tier != 'quick':
+        out.append({'name': 'oneline-big:dict', 'family': 'oneline-value',
+                    'params': {'value': "{'rows': [(0, 1, 2, 3, 4, 5, 6, 7, 8, 9) * 5] * 4}",
+                               'ref': 'repr'},
+                    'budget': 300.0, 'path_timeout': 300.0})
     return out
 
 
@@ -129,6 +146,6 @@ def evidence(tier, seed, tasks, results):
     ev['coverage']['bounds']['excuses recomputed'] = (
         'flat width of the group + rest of the line with following groups flat vs '
         'min(width - column, indent + ribbon - column); always_break in the lookahead; '
-        'smart: a following deeper line exceeding the page width; lookahead through '
-        'align/hang is not modelled (excuse granted)')
+        'smart: a following deeper line exceeding the page width (align / hang '
+        'resolved at the exact output column)')
     return ev
